@@ -235,15 +235,15 @@ def run(prog, chk):
                     ok = True
             chk.ob("R5.waits-only-for-own-request", f.qual, ok, "%s:%d" % (f.module.path, c.lineno),
                    "_read_response(%s) with %s <- %s" % (unparse(a), unparse(a), src))
-    # the prefetch wait loop leaves when an error was saved (C29-R3 shared): every status error reaches _saved_exception
-    ar = prog.func("SFTPFile._async_response")
-    fa = Flow(prog, ar, env={"t == CMD_STATUS": True})
-    save = fa.nodes(lambda x: x.kind == "stmt" and isinstance(x.ast, ast.Assign) and unparse(x.ast.targets[0]) == "self._saved_exception")
-    hs = [h for h in fa.cfg.nodes if h.kind == "except"]
-    ok = len(save) == 1 and len(hs) == 1 and hs[0].ast.type is not None and unparse(hs[0].ast.type) == "Exception" and \
-        fa.cfg.dominated([fa.cfg.exit.id], guard_nodes=[save[0].id], start=[hs[0].id])
-    chk.ob("R5.async-errors-end-prefetch-wait", "SFTPFile._async_response", ok, ar.loc,
-           "every error status (EOF included) is saved, so the prefetch wait loop's _check_exception can end the wait")
+    # the prefetch wait loop leaves when an error was saved (C29-R3 shared) or when the prefetch is over: every status error
+    # reaches _saved_exception, or - for an absorbed end-of-file - the request is unregistered so _prefetch_done gets set
+    from ._shared import async_status_discipline
+    d = async_status_discipline(prog)
+    ok = d["ok_saved"] and set(d["absorbed"]) <= {"EOFError"} and (not d["absorbed"] or d["unregisters"])
+    chk.ob("R5.async-errors-end-prefetch-wait", "SFTPFile._async_response", ok, d["loc"],
+           "every error status is saved so the wait loop's _check_exception ends the wait%s" % (
+               "" if not d["absorbed"] else "; %s is absorbed and the wait then ends through _prefetch_done because every reply unregisters "
+               "its request (%s)" % (d["absorbed"], d["unregisters"])))
     rp = prog.func("SFTPFile._read_prefetch")
     fp = Flow(prog, rp, implicit=False)
     rdn = [x for (x, k) in fp.nodes_with_call(attr="_read_response")]
